@@ -752,7 +752,7 @@ func (ex *Exec) schedule(st *State) bool {
 }
 
 func (ex *Exec) jump(st *State, fr *Frame, to *ssa.BasicBlock) {
-	if st.TermFuncs != nil && to.Index <= fr.Block.Index {
+	if st.TermFuncs != nil && to.Dominates(fr.Block) {
 		if n, ok := st.TermFuncs[fr.Fn.String()]; ok {
 			fr.BackEdges++
 			if fr.BackEdges > n {
@@ -1125,7 +1125,13 @@ func (ex *Exec) runDeferred(st *State, fr *Frame, d DeferRec) bool {
 func (ex *Exec) concreteInt(st *State, v Value) int64 {
 	t := v.(*smt.Term)
 	if !t.IsConst() {
-		ex.unsupported(st, "symbolic size/length")
+		// a size/length must be concrete: split the path over its feasible values (solver-driven)
+		x := ex.splitPin(st, t, 64)
+		if t.Sort.W < 64 {
+			sh := uint(64 - t.Sort.W)
+			return int64(x<<sh) >> sh
+		}
+		return int64(x)
 	}
 	return int64(t.Val)
 }
